@@ -16,6 +16,7 @@ G = 9.81                  # WNTR's documented gravity constant
 RHO = 1000.0
 TOL = 1e-6                # NewtonSolver default TOL on the inf-norm of the residuals (each in its own unit)
 QTOL = 1e-4 * FT ** 3     # EPANET/WNTR flow tolerance 0.0001 cfs = 2.83168e-6 m3/s
+HTOL = 0.0005 * FT        # EPANET/WNTR head tolerance 0.0005 ft = 1.524e-4 m
 HW_EPS = 1e-5             # default approximation adds eps*sqrt(K)*q
 HW_Q1 = 2e-4              # piecewise approximation: linear below q1, cubic up to q2 (documented)
 HW_Q2 = 4e-4
